@@ -55,6 +55,7 @@ type flowParams struct {
 	LateAckRecv    bool                `json:"late_ack_recv"`    // source plugins are slow to receive acks (exploration order)
 	GateDestOpen   bool                `json:"gate_dest_open"`   // destination Open calls are pending events with answers {ok, err}
 	NoMatch        []int               `json:"no_match"`         // records that do not match the processors' condition (Cond: "match")
+	GateSrcOpen    []string            `json:"gate_src_open"`    // sources whose Open is a pending event with answers {ok, err}
 	GateDLQOpen    bool                `json:"gate_dlq_open"`    // the DLQ connector's Open is a pending event (an unresponsive DLQ during start-up)
 	Reject         map[string][]string `json:"reject"`           // destination -> records/pieces it rejects (forced answers, C08)
 	Apply          []string            `json:"apply"`            // live applies: "<kind>[+stale][+noauth]", kind in proc, twoprocs, conn, addproc; "||" prefix = concurrent with the previous one
@@ -92,6 +93,9 @@ func (p flowParams) name() string {
 	}
 	if p.GateDestOpen {
 		n += "/destopen"
+	}
+	if len(p.GateSrcOpen) > 0 {
+		n += "/srcopen=" + strings.Join(p.GateSrcOpen, ",")
 	}
 	if len(p.PointOnly) > 0 {
 		n += "/points=" + strings.Join(p.PointOnly, ",")
@@ -191,6 +195,11 @@ func (p flowParams) topology() stack.Topology {
 					return nil
 				}
 				return fakes.Pos(i)
+			}
+		}
+		for _, g := range p.GateSrcOpen {
+			if g == ss.Name {
+				ss.GateOpen, ss.Faults = true, true
 			}
 		}
 		t.Sources = append(t.Sources, ss)
@@ -665,12 +674,24 @@ func filterFor(prop string, vs []verifkit.Violation) []verifkit.Violation {
 		if prop == "C16" && (strings.HasPrefix(v.Key, "C01/") || strings.HasPrefix(v.Key, "C03/") || strings.HasPrefix(v.Key, "C05/") || strings.HasPrefix(v.Key, "C02/position-covers-unhandled")) {
 			v.Key = "C16/record-lost-or-reordered-across-apply:" + v.Key // the apply must continue from the durable position with no skipped record
 		}
+		if prop == "C01" && strings.HasPrefix(v.Key, "C02/position-covers-unhandled") {
+			// the stored position only moves through connector.Source.Ack: a position that covers a record no destination
+			// confirmed shows that the source connector was told (even when its plugin is already gone and sees no ack)
+			v.Key = "C01/ack-before-destination/seen-in-stored-position"
+		}
+		if prop == "C16" && len(v.Key) >= 4 && (strings.HasPrefix(v.Key, "C11/run-alive-but-status-stopped") || strings.HasPrefix(v.Key, "C11/start-refused-after-run-ended") || strings.HasPrefix(v.Key, "C06/teardown-count")) {
+			// a failed apply leaves the pipeline unchanged or CLEANLY stopped: nothing of the failed restart stays open,
+			// and the retry the error asks for is possible
+			v.Key = "C16/not-cleanly-stopped-after-apply:" + v.Key
+		}
 		if prop == "C09" {
 			// C09 on the full stack: whatever shape a plugin replies with, the engine neither acknowledges an affected
 			// record nor fails to terminate. (Panics are caught by the driver: the crashing schedule is journaled.)
 			switch {
 			case strings.HasPrefix(v.Key, "C01/ack-before-destination"), strings.HasPrefix(v.Key, "C02/position-covers-unhandled"):
 				v.Key = "C09/affected-record-acknowledged"
+			case strings.HasPrefix(v.Key, "C06/stop-never-returns"):
+				v.Key = "C09/engine-wedged-by-reply-shape" // every plugin answered, in a legal if unusual shape, and the engine hangs
 			}
 		}
 		if prop == "SMOKE" || prop == "PROC" || strings.HasPrefix(v.Key, prop+"/") || strings.HasPrefix(v.Key, "harness/") || (strings.HasPrefix(v.Key, "hang/") && (prop == "C09" || prop == "C11" || prop == "C12" || prop == "C06")) {
